@@ -24,7 +24,7 @@ class Cell:
 
     def __init__(self, obs="F2_total", process="NC", fns="ZM-VFNS", nfff=4, pto=1, pto_evol=None, tmc=0,
                  projectile="electron", target="proton", fonllparts=None, nf=None, ren_sv=True, fact_sv=True,
-                 n3lo_var=0, pos_charge=None, kin_y=False, legacy_ptodis=True, kin_x=None, shared_before=(), kin_q2=None, theory_overrides=None, kin_order=None):
+                 n3lo_var=0, pos_charge=None, kin_y=False, legacy_ptodis=True, kin_x=None, shared_before=(), kin_q2=None, theory_overrides=None, kin_order=None, points=None):
         self.obs = obs
         self.process = process
         self.fns = fns
@@ -47,6 +47,7 @@ class Cell:
         self.kin_q2 = kin_q2  # override of the requested Q2 (a concrete number), default the symbol Q2
         self.theory_overrides = dict(theory_overrides or {})  # concrete theory-card entries (e.g. masses for threshold-boundary cells)
         self.kin_order = kin_order  # order in which the keys of a kinematic point are written (a mapping: any order is the same request)
+        self.points = points  # explicit (concrete) kinematic points of cell.obs, evaluated in the runner's order; the LAST one is the point folded
 
     def label(self):
         return (f"{self.obs}|{self.process}|{self.fns}|NfFF={self.nfff}|PTO={self.pto}|PTOevol={self.pto_evol}|TMC={self.tmc}"
@@ -105,6 +106,8 @@ def observables_card(cell, n_points=1):
         if cell.kin_order:
             k = {name: k[name] for name in cell.kin_order if name in k}
         kins.append(k)
+    if cell.points:
+        kins = [dict(p_) for p_ in cell.points]
     o = {
         "interpolation_xgrid": [s(f"xg{j}", True) for j in range(GRID_N)],
         "interpolation_is_log": True,
@@ -265,9 +268,14 @@ def guard_not_triggered(node):
             return want(t.operand, not value)
         if isinstance(t, ast.BoolOp):
             forced = (isinstance(t.op, ast.Or) and value is False) or (isinstance(t.op, ast.And) and value is True)
-            for v in t.values:
+            for i, v in enumerate(t.values):
                 if _contains_node(v, node):
-                    return want(v, value) if forced else None
+                    if forced:
+                        return want(v, value)
+                    # an `and` that must be false / an `or` that must be true: one operand suffices; the analysed path is the one on which the
+                    # FIRST operand decides (short circuit: later operands - e.g. a tolerance test softening the bound - are not evaluated).
+                    # That is the path of a point inside the documented domain; what the softened bound lets through is C16.kin's business.
+                    return want(v, value) if i == 0 else None
         return None
 
     return want(g.test, False)
